@@ -162,6 +162,17 @@ Wave 3 (loops; groups `line` `fold` `text` -> Gen/BodiesLine.lean, BodiesFold.le
                getter), self_type 'State:S' (the method returns the state it leaves), a `try` whose body ends in `return`,
                `continue` / `break` of an inner loop inside a `try`, `continue` in a handler, `sep.join(E for v in xs)` over
                objects, `for k, v in <pairs>` with k, v rebound in the iteration, SEQUENCE_TYPES checked to be (list, tuple).
+  wave 7       Python SETS: `{E for v in xs}` is a duplicate-free list (`pyDedup`; the element type needs `BEq`), `len(s)`,
+               `None not in s`, `s.pop()` only of a one-element set (anything else ends in `fuel`: an arbitrary element is not
+               modelled).  `hasattr(x, '__iter__')` on a one-or-many value is an instance test.  `if x:` on a str-or-None is
+               "not None AND not empty" (the earlier narrowing took an empty str for true; no generated file depended on it).
+               A truth value declared external (`'truthy <name>'`).  `obj.attr[k] = v`, `del obj.attr[k]` and a mutating call
+               on an attribute the method writes (`fieldset`) as declared setters.  Binary operations and comparisons of opaque
+               objects as whole-expression externals KEYED BY THEIR SOURCE TEXT (`start > end`: `>=` is refused).  A pair
+               argument unpacked (`a, b = per`).  `isinstance(dt[0], C)` on a component of a pair known by an earlier test;
+               instance tests on unions as boolean expressions; an and-chain with an operand already decided false is false.
+               `return NotImplemented` (None of an optional bool).  `s.isdigit()` (ASCII), `__new__` (first parameter `cls`).
+               A method that is REMOVED from the source makes the translation fail (`function .. not found`).
   parameters   the order of the generated parameters follows their first use in the source: apply the definitions BY NAME
                (`f (last_ack := ..) (snooze_until := ..)`), never positionally - two parameters of one type could
                otherwise change places together with the source and no proof or test would notice.
@@ -187,7 +198,7 @@ LEAN_TYPE = {'Int': 'Int', 'Str': 'Str', 'Bytes': 'Str', 'Bool': 'Bool', 'TD': '
              'PyDate': 'PyDate', 'PyDateTime': 'PyDateTime', 'PyTime': 'PyTime', 'None': 'Unit', 'StrList': 'List Str',
              'Truth': 'Bool', 'Char': 'Char', 'OptInt': 'Option Int', 'Builder': 'Str', 'IntList': 'List Int',
              'Unbound:Int': 'Option Int', 'D': 'Trig', 'OptD': 'Option Trig', 'TDS': 'Int', 'OptTDS': 'Option Int', 'DList': 'List Trig',
-             'ATList': 'List AT', 'Comp': 'Comp', 'CompList': 'List Comp', 'Fn:Comp:Bool': 'Comp → Bool', 'Object': 'Unit', 'U:PyDDD': 'PyDDD', 'U:RVals': 'PyOneMany RV', 'U:ArgU': 'PyOneMany PV', 'U:DLU': 'PyOneMany DV', 'U:StoredU': 'PyOneMany OV', 'IV': 'PyIV', 'Vals': 'PyVals', 'Val': 'Val', 'ValList': 'List Val',
+             'ATList': 'List AT', 'Comp': 'Comp', 'CompList': 'List Comp', 'Fn:Comp:Bool': 'Comp → Bool', 'Object': 'Unit', 'OptBool': 'Option Bool', 'U:PyDDD': 'PyDDD', 'U:RVals': 'PyOneMany RV', 'U:ArgU': 'PyOneMany PV', 'U:DLU': 'PyOneMany DV', 'U:StoredU': 'PyOneMany OV', 'IV': 'PyIV', 'Vals': 'PyVals', 'Val': 'Val', 'ValList': 'List Val',
              'Store': 'CDict.Store V', 'StepOut': 'CDict.Store V × CDict.Out V', 'V': 'V', 'OptV': 'Option V', 'Msg': 'Unit', 'ExcVal': 'Exc', 'Item': 'PyItem', 'ItemList': 'List PyItem', 'EntryList': 'List Entry'}
 
 
@@ -405,6 +416,60 @@ TARGETS = [
             'truthy tzid': ('expr', 'tzid_truthy', ['tzid'], 'Bool'),
             'self__params[]=': ('setitem', 'params_set', 'Str', 'Opt:PVL')}, False, 'add',
            {'dt_list': 'U:DLU'}, None, None, {'vDDD': 'List:DO', 'tzid': 'Opt:PVL'}),
+    # ---- CaselessDict, what is left (C17): __ne__, __eq__, sorted_keys, sorted_items.  The mapping and the other operand are
+    # opaque; the comparisons, `hasattr(other, 'items')`, `canonsort_keys` / `canonsort_items`, `self.keys()` and
+    # `self.canonical_order` are parameters.  `NotImplemented` is None of an optional bool.  A method that is REMOVED from the
+    # source makes the translation fail (`function not found`), which breaks the tie of C17
+    Target('caselessdict.py', 'CaselessDict', '__ne__', 'cd_ne', 'State:S', {},
+           {'self == other': ('expr', 'eq_other', ['self', 'other'], 'Bool')}, False, 'cdmeta', {'other': 'O'}, None, 'Bool'),
+    Target('caselessdict.py', 'CaselessDict', '__eq__', 'cd_eq', 'State:S', {},
+           {'self is other': ('expr', 'same_object', ['self', 'other'], 'Bool'),
+            "hasattr(other, 'items')": ('expr', 'has_items', ['other'], 'Bool'),
+            'dict(self.items()) == dict(CaselessDict(other).items())': ('expr', 'dict_eq', ['self', 'other'], 'Bool')},
+           False, 'cdmeta', {'other': 'O'}, None, 'OptBool'),
+    Target('caselessdict.py', 'CaselessDict', 'sorted_keys', 'cd_sorted_keys', 'State:S', {},
+           {'canonsort_keys': ('fun', 'canonsort_keys', ['StrList', 'ORD'], 'StrList'),
+            'self.keys()': ('expr', 'keys', ['self'], 'StrList'),
+            'self.canonical_order': ('expr', 'canonical_order', ['self'], 'ORD')}, False, 'cdmeta', {}, None, 'StrList'),
+    Target('caselessdict.py', 'CaselessDict', 'sorted_items', 'cd_sorted_items', 'State:S', {},
+           {'canonsort_items': ('fun', 'canonsort_items', ['S', 'ORD'], 'Pairs:V'),
+            'self.canonical_order': ('expr', 'canonical_order', ['self'], 'ORD')}, False, 'cdmeta', {}, None, 'Pairs:V'),
+    # vDDDTypes.__init__ (C02 / C11): the VALUE and TZID parameters derived from what is wrapped (the union `PyDDD`); the
+    # `Parameters(..)` constants, `tzid_from_dt` and `self.params.update({'TZID': tzid})` are parameters
+    Target('prop.py', 'vDDDTypes', '__init__', 'vDDDTypes_init', 'Fields', {'params': ('params', 'P'), 'dt': ('dt_', 'U:PyDDD')},
+           {'Parameters()': ('expr', 'params_none', [], 'P'),
+            "Parameters({'value': 'DATE'})": ('expr', 'params_date', [], 'P'),
+            "Parameters({'value': 'TIME'})": ('expr', 'params_time', [], 'P'),
+            "Parameters({'value': 'PERIOD'})": ('expr', 'params_period', [], 'P'),
+            'tzid_from_dt': ('fun', 'tzid_from_dt', ['U:PyDDD'], 'OptStr'),
+            "self__params.update({'TZID': tzid})": ('fieldset', 'params_with_tzid', 'params', ['tzid'])}, False, 'add',
+           {'dt': 'U:PyDDD'}),
+    # vPeriod.__init__ (C02 / C11): the two members of the pair are opaque objects `PO`; every instance test, `start + duration`,
+    # `end - start` and `start > end` (which may raise TypeError / OverflowError) are parameters KEYED BY THEIR SOURCE TEXT:
+    # `start >= end` or a comparison of other operands is not the declared one and is refused
+    Target('prop.py', 'vPeriod', '__init__', 'vPeriod_init', 'Fields',
+           {'params': ('params', 'P'), 'start': ('start_', 'PO'), 'end': ('end_', 'PO'), 'by_duration': ('by_duration_', 'Int'),
+            'duration': ('duration_', 'PO')},
+           {'isinstance(start, datetime)': ('expr', 'start_is_datetime', ['start'], 'Bool'),
+            'isinstance(start, date)': ('expr', 'start_is_date', ['start'], 'Bool'),
+            'isinstance(end_or_duration, datetime)': ('expr', 'other_is_datetime', ['end_or_duration'], 'Bool'),
+            'isinstance(end_or_duration, date)': ('expr', 'other_is_date', ['end_or_duration'], 'Bool'),
+            'isinstance(end_or_duration, timedelta)': ('expr', 'other_is_timedelta', ['end_or_duration'], 'Bool'),
+            'start + duration': ('pexpr', 'add', ['start', 'duration'], 'PO'),
+            'end - start': ('pexpr', 'sub', ['end', 'start'], 'PO'),
+            'start > end': ('pexpr', 'start_gt_end', ['start', 'end'], 'Bool'),
+            "Parameters({'value': 'PERIOD'})": ('expr', 'params_period', [], 'P'),
+            'tzid_from_dt': ('fun', 'tzid_from_dt', ['PO'], 'OptStr'),
+            'self__params[]=': ('setitem', 'params_set', 'Str', 'Str')}, False, 'add',
+           {'per': 'Tuple:PO × PO'}, None, None, {'end': 'PO', 'duration': 'PO', 'by_duration': 'Int'}),
+    # vMonth.__new__ (C19 / C03) on a str: digits, or digits and a last character; the int object made by
+    # `super().__new__(cls, month_index)` and the attributes set on it are parameters (`str.isdigit` is the ASCII one, as `upper`)
+    Target('prop.py', 'vMonth', '__new__', 'vMonth_new', None, {},
+           {'super().__new__(cls, month_index)': ('expr', 'new_int', ['month_index'], 'MO'),
+            'self.leap=': ('setattr', 'set_leap', 'Bool'),
+            'Parameters(params)': ('expr', 'params_of', ['params'], 'P'),
+            'self.params=': ('setattr', 'set_params', 'P')}, False, 'dec',
+           {'month': 'Str', 'params': 'PD'}, None, 'MO'),
     # ---- parser helpers
     Target('parser.py', None, 'dquote', 'dquote', None, {}, {'QUOTABLE.search': ('pred', 'quotable_search')}, False,
            'parser', {'val': 'Str'}),
@@ -780,6 +845,16 @@ class Fn:
             return (env[node.left.id].type == 'None') == isinstance(node.ops[0], ast.Is)
         if isinstance(node, ast.Call) and isinstance(node.func, ast.Name) and node.func.id == 'isinstance' \
                 and 'isinstance' not in self.modnames and len(node.args) == 2 and not node.keywords \
+                and isinstance(node.args[0], ast.Name) and node.args[0].id in env and isinstance(node.args[1], ast.Tuple) \
+                and env[node.args[0].id].type.startswith('U:') and env[node.args[0].id].lean in self.narrow \
+                and all(isinstance(c, ast.Name) and c.id in UNIONS[env[node.args[0].id].type[2:]]['classes'] for c in node.args[1].elts):
+            xv = env[node.args[0].id]       # a value of a union already known to be of one member, tested for several classes
+            u, nv = UNIONS[xv.type[2:]], self.narrow[xv.lean]
+            ctor = u.get('pair') if nv.type == 'Tuple' else u['members'].get(nv.type)
+            if ctor is not None:
+                return any(ctor in u['classes'][c.id] for c in node.args[1].elts)
+        if isinstance(node, ast.Call) and isinstance(node.func, ast.Name) and node.func.id == 'isinstance' \
+                and 'isinstance' not in self.modnames and len(node.args) == 2 and not node.keywords \
                 and isinstance(node.args[0], ast.Name) and node.args[0].id in env and isinstance(node.args[1], ast.Name):
             typ, what = env[node.args[0].id].type, node.args[1].id
             xv = env[node.args[0].id]
@@ -791,6 +866,9 @@ class Fn:
                     return ctor in u['classes'][what]
             if what == 'str' and 'str' not in self.modnames and typ in ('None', 'Str'):
                 return typ == 'Str'
+            self.static_typ = typ
+            if what == self.t.cls and self.cls is not None and self.modnames.get(what) == 'def' and typ == 'Str' and self.plain_class(self.cls):
+                return False        # a str is not an instance of this class (its builtin ancestors are not str)
             if what == 'cls' and self.cls is not None and typ in ('None', 'Str', 'Int') and self.plain_class(self.cls):
                 return False        # a str / int / None is not an instance of a class whose bases (in this file) end in object
         return None
@@ -809,7 +887,8 @@ class Fn:
                 d = next((n for n in tree.body if isinstance(n, ast.ClassDef) and n.name == b.id), None)
                 if d is None or not self.plain_class(d, seen + 1, tree):
                     return False
-            elif how == 'collections.OrderedDict' or (how is None and b.id in ('dict', 'list', 'object')):
+            elif how == 'collections.OrderedDict' or (how is None and b.id in ('dict', 'list', 'object')) \
+                    or (how is None and b.id in ('int', 'float') and getattr(self, 'static_typ', None) == 'Str'):
                 continue        # a str / int / None is no mapping and no list
             elif how is not None and how.startswith('icalendar.'):
                 mod = how.rsplit('.', 1)[0]
@@ -874,6 +953,8 @@ class Fn:
         if v.type.startswith('Opt:'):
             self.never_false(v.type[4:], node)
             return f'{v.lean}.isSome'
+        if v.type == 'Tuple' and v.elts:
+            return 'true'       # a pair is not empty
         if v.type == 'D':
             return 'true'       # a date / datetime object is never false
         if isinstance(node, ast.Name) and self.t.externals.get('truthy ' + node.id, ('',))[0] == 'expr':
@@ -958,7 +1039,7 @@ class Fn:
         return self.truth(v, node)
 
     def expr(self, node, env):
-        whole = self.t.externals.get(ast.unparse(node)) if isinstance(node, (ast.Call, ast.Subscript, ast.Attribute, ast.Compare)) else None
+        whole = self.t.externals.get(ast.unparse(node)) if isinstance(node, (ast.Call, ast.Subscript, ast.Attribute, ast.Compare, ast.BinOp)) else None
         if whole is not None and whole[0] == 'expr' and whole[1] is None:
             return V('()', whole[3], None)      # an external value that the translated code never looks at
         if whole is not None and whole[0] in ('expr', 'pexpr'):        # an expression that stays external, as a whole
@@ -1013,7 +1094,7 @@ class Fn:
             return self.hoist(node, f'{f.lean} {obj.lean} {k.lean}', e[3])      # KeyError when the key is missing
         v, sl = self.expr(node.value, env), node.slice
         if v.type == 'Tuple' and isinstance(sl, ast.Constant) and type(sl.value) is int and 0 <= sl.value < len(v.elts):
-            return v.elts[sl.value]     # a component of a tuple display
+            return self.narrow.get(v.elts[sl.value].lean, v.elts[sl.value])     # a component of a tuple display
         if v.type.startswith('List:') and not isinstance(sl, ast.Slice) and ast.unparse(sl) in ('-1', '0'):
             return self.hoist(node, f'{"listLast" if ast.unparse(sl) == "-1" else "listHead"} {v.lean}', v.type[5:])
         lit = lambda b: b is None or (isinstance(b, ast.Constant) and type(b.value) is int and b.value >= 0)  # noqa: E731
@@ -1046,6 +1127,8 @@ class Fn:
         return V(f'(pySliceI {v.lean} {a.lean} {b.lean})', 'Str', None)
 
     def e_Name(self, node, env):
+        if node.id == 'NotImplemented' and node.id not in env and node.id not in self.modnames and self.t.ret == 'OptBool':
+            return V('none', 'OptBool', None)
         if node.id == 'self' and self.dictself:
             self.fail(node, '`self` of a dict method outside `super().<m>(..)`')
         if node.id == 'self' and self.objself:
@@ -1310,6 +1393,10 @@ class Fn:
             return V(f'(match {x.lean} with | none => {nb.lean} | some {v} => {sb.lean})', sb.type, None)
         c = self.test(node.test, env)
         a, b = self.lazily(self.expr, node.body, env), self.lazily(self.expr, node.orelse, env)
+        if b.type == 'None' and a.type.startswith('Opt'):       # `E if c else None` where E may be None itself
+            b = V('none', a.type, None)
+        if a.type == 'None' and b.type.startswith('Opt'):
+            a = V('none', b.type, None)
         if a.type != b.type:
             self.fail(node, f'conditional expression of types {a.type} and {b.type}')
         lits = a.lits | b.lits if a.lits is not None and b.lits is not None else None
@@ -1663,6 +1750,10 @@ class Fn:
             x = self.expr(fn.value, env)
             if x.type == 'Str' and lits and all(isinstance(l, ast.Constant) and isinstance(l.value, str) for l in lits):
                 return V('(' + ' || '.join(f'startsWith {x.lean} {X.lstr(l.value)}' for l in lits) + ')', 'Bool', None)
+        if isinstance(fn, ast.Attribute) and fn.attr == 'isdigit' and not node.args and not node.keywords:
+            x = self.expr(fn.value, env)
+            if x.type == 'Str':     # ASCII digits (the models' convention; Python's is Unicode)
+                return V(f'(isDigitStr {x.lean})', 'Bool', None)
         if isinstance(fn, ast.Attribute) and fn.attr == 'lower' and not node.args and not node.keywords:
             x = self.expr(fn.value, env)
             if x.type == 'Str':     # ASCII lower-casing (the models' convention; Python's is Unicode)
@@ -1691,6 +1782,14 @@ class Fn:
             e = self.t.externals[callee]        # a method of `self` that stays external: a function of the component
             f = self.param(e[1], f'Comp → {lean_type(e[2])}')
             return V(f"({f.lean} (Comp.mk name' props' subs'))", e[2], None)
+        if callee == 'isinstance' and 'isinstance' not in self.modnames and self.static(node, env) is None \
+                and self.union_test(node, env) is not None:
+            x, acc, left = self.union_test(node, env)      # an instance test of a union value, as a value
+            if not acc:
+                return V('false', 'Bool', None)
+            pair = UNIONS[x.type[2:]].get('pair')
+            pats = ' | '.join('.' + c + (' _ _' if c == pair else ' _') for c in acc)
+            return V(f'(match {x.lean} with | {pats} => true | _ => false)' if acc != left else 'true', 'Bool', None)
         if callee == 'isinstance' and 'isinstance' not in self.modnames and self.static(node, env) is not None:
             return V('true' if self.static(node, env) else 'false', 'Bool', None)      # decided by what is known of the value
         if callee == 'isinstance' and 'isinstance' not in self.modnames and len(node.args) == 2 and not node.keywords \
@@ -1765,6 +1864,8 @@ class Fn:
                 self.fail(node, f'call with keyword arguments `{ast.unparse(node)[:50]}`')
             args = self.call_args(node, env)
             if ext[0] == 'fun':
+                args = [(to_union(a, w) or a) if w.startswith('U:') and a.type != w else a for a, w in zip(args, ext[2])] \
+                    if len(args) == len(ext[2]) else args
                 if [a.type for a in args] != ext[2]:
                     self.fail(node, f'external call {callee}: argument types {[a.type for a in args]}, declared {ext[2]}')
                 f = self.param(ext[1], ' → '.join(lean_type(t) for t in ext[2] + [ext[3]]))
@@ -2030,6 +2131,8 @@ class Fn:
                     v = V(f'(PyResult.one {v.lean})', self.t.ret, None)
                 elif v.type == 'List:' + rt:
                     v = V(f'(PyResult.many {v.lean})', self.t.ret, None)
+            if self.t.ret == 'OptBool' and v.type in ('Bool', 'Truth'):
+                v = V(f'(some {v.lean})', 'OptBool', None)
             if (self.t.ret or '').startswith('U:') and v.type != self.t.ret:      # a member of the union the function returns
                 w = to_union(v, self.t.ret)
                 if w is None:
@@ -2062,6 +2165,14 @@ class Fn:
             return self.for_(s, rest, env, tail)
         if isinstance(s, ast.While):
             return self.while_(s, rest, env, tail)
+        if isinstance(s, ast.Expr) and isinstance(s.value, ast.Call) and getattr(self, 'fields', None) is not None \
+                and self.t.externals.get(ast.unparse(s.value), ('',))[0] == 'fieldset':
+            e = self.t.externals[ast.unparse(s.value)]
+            fld = env['self__' + e[2]]
+            args = [self.expr(ast.parse(n, mode='eval').body, env) for n in e[3]]
+            f = self.param(e[1], ' → '.join([lean_type(fld.type)] + [lean_type(a.type) for a in args] + [lean_type(fld.type)]))
+            env, line = self.bind(env, 'self__' + e[2], V('(' + ' '.join([f.lean, fld.lean] + [a.lean for a in args]) + ')', fld.type, None))
+            return self.take_pre() + [line] + self.block(rest, env, tail)
         if isinstance(s, ast.Expr) and isinstance(s.value, ast.Call):
             callee = ast.unparse(s.value.func)
             e = self.t.externals.get(callee)
@@ -2206,6 +2317,8 @@ class Fn:
                     v = V(f'(some {v.lean})', want, None)
                 elif v.type == 'None' and want.startswith('Opt'):
                     v = V('none', want, None)
+                elif want.startswith('U:') and to_union(v, want) is not None:
+                    v = to_union(v, want)
                 if v.type != want:
                     self.fail(s, f'self.{s.targets[0].id[6:]} is assigned a {v.type}, declared {want}')
             lines = self.take_pre()
@@ -2216,6 +2329,9 @@ class Fn:
         if isinstance(s, ast.Assign) and len(s.targets) == 1 and isinstance(s.targets[0], ast.Tuple) \
                 and all(isinstance(t, ast.Name) for t in s.targets[0].elts):
             v = self.expr(s.value, env)      # the right side is evaluated first
+            if v.type.startswith('Tuple:') and v.elts is None and len(s.targets[0].elts) == 2 and v.type.count(' × ') == 1:
+                ta, tb = v.type[6:].split(' × ')       # a pair handed over as one value
+                v = V('', 'Tuple', None, [V(v.lean + '.1', ta, None), V(v.lean + '.2', tb, None)])
             if v.type in ('StrList',) + tuple(t for t in [v.type] if t.startswith('List:')) and len(s.targets[0].elts) == 2:
                 et = 'Str' if v.type == 'StrList' else v.type[5:]      # `a, b = xs`: ValueError unless exactly two elements
                 r = self.hoist(s, f'listUnpack2 {v.lean}', f'Tuple:{lean_type(et)} × {lean_type(et)}')
@@ -2515,6 +2631,14 @@ class Fn:
                 left = [c for c in allc if c not in self.excluded.get(x.lean, ())]
                 return x, [c for c in left if c in u['classes'][key]], left
             return None
+        if isinstance(node, ast.Call) and isinstance(node.func, ast.Name) and node.func.id == 'isinstance' and len(node.args) == 2 \
+                and isinstance(node.args[0], ast.Subscript) and isinstance(node.args[0].value, ast.Name) and node.args[0].value.id in env \
+                and isinstance(node.args[0].slice, ast.Constant) and 'isinstance' not in self.modnames and not node.keywords:
+            base = self.narrow.get(env[node.args[0].value.id].lean)
+            if base is not None and base.type == 'Tuple' and type(node.args[0].slice.value) is int and 0 <= node.args[0].slice.value < len(base.elts):
+                comp = base.elts[node.args[0].slice.value]       # a component of a pair: a variable of its own
+                node = ast.copy_location(ast.Call(func=node.func, args=[ast.Name(id="comp'", ctx=ast.Load()), node.args[1]], keywords=[]), node)
+                env = dict(env, **{"comp'": comp})
         if not (isinstance(node, ast.Call) and isinstance(node.func, ast.Name) and node.func.id == 'isinstance'
                 and 'isinstance' not in self.modnames and 'isinstance' not in env and len(node.args) == 2 and not node.keywords
                 and isinstance(node.args[0], ast.Name) and node.args[0].id in env):
@@ -2551,6 +2675,10 @@ class Fn:
         return f'.{ctor} {v}', V(v, next(t for t, c in u['members'].items() if c == ctor), None)
 
     def if_(self, s, rest, env, tail):
+        if isinstance(s.test, ast.BoolOp) and isinstance(s.test.op, ast.And) and any(self.static(v, env) is False for v in s.test.values):
+            # an operand already decided false by what is known of a value: the test is false (the operands before it have no effect)
+            self.notes.append(f'line {s.lineno}: `{ast.unparse(s.test)[:60]}` is False here')
+            return self.block(s.orelse + rest, env, tail)
         if isinstance(s.test, ast.BoolOp) and isinstance(s.test.op, ast.And) and any(self.union_test(v, env) is not None for v in s.test.values):
             # `isinstance(x, C) and B`: B is evaluated knowing what x is
             vals = s.test.values
@@ -2571,6 +2699,9 @@ class Fn:
                 self.notes.append(f'line {s.lineno}: `{ast.unparse(s.test)}` is {neg_test} here (of {x.lean} it is known '
                                   f'that it is one of: {", ".join(left)})')
                 return self.block(no + rest, env, tail)
+            if acc == left and len(acc) > 1:      # every member still possible passes: the test is true, nothing new is learnt
+                self.notes.append(f'line {s.lineno}: `{ast.unparse(s.test)[:60]}` is {not neg_test} here')
+                return self.block(yes + rest, env, tail)
             do = ' do' if self.monadic else ''
             old_ex = dict(self.excluded)
             pre = self.take_pre()
@@ -2614,6 +2745,18 @@ class Fn:
                                   f'{skipped[0].lineno}-{skipped[-1].end_lineno} are not translated')
             return self.block((s.body if st else s.orelse) + rest, env, tail)
         ind = lambda ls: ['  ' + x for x in ls]   # noqa: E731
+        tn = s.test.operand if isinstance(s.test, ast.UnaryOp) and isinstance(s.test.op, ast.Not) else s.test
+        if isinstance(tn, ast.Name) and tn.id in env and env[tn.id].type == 'OptStr' and env[tn.id].lean not in self.narrow \
+                and ('truthy ' + tn.id) not in self.t.externals:
+            # `if x:` on a str-or-None: x is a str AND it is not empty
+            both = ast.BoolOp(op=ast.And(), values=[
+                ast.Compare(left=ast.Name(id=tn.id, ctx=ast.Load()), ops=[ast.IsNot()], comparators=[ast.Constant(value=None)]),
+                ast.Compare(left=ast.Name(id=tn.id, ctx=ast.Load()), ops=[ast.NotEq()], comparators=[ast.Constant(value='')])])
+            new = ast.If(test=both, body=s.body, orelse=s.orelse) if tn is s.test else ast.If(test=both, body=s.orelse or [ast.Pass()], orelse=s.body)
+            ast.copy_location(new, s)
+            ast.fix_missing_locations(new)
+            new.end_lineno = s.end_lineno
+            return self.if_(new, rest, env, tail)
         nar = self.narrowing(s.test, env)
         if nar is not None:     # a test for None on an optional value: a `match`; the present value is used from there on
             x, present_first = nar
@@ -2871,7 +3014,7 @@ class Fn:
             if re.fullmatch(r"[A-Za-z_][\w']*", n) and n not in inner and word(n) and n not in [c[0] for c in caps]:
                 caps.append((n, typ))
         capsig = ('«EXTSIG»' if self.objself else '') + ''.join(f' ({n} : {lean_type(t)})' for n, t in caps)
-        if self.t.group in ('parse', 'alarm', 'recur', 'add'):     # the opaque types the loop mentions
+        if self.t.group in ('parse', 'alarm', 'recur', 'add', 'cdmeta'):     # the opaque types the loop mentions
             ops = opaque_types([lean_type(t) for _, t in caps] + [lean_type(slots[n]) for n in state]
                                + ([lean_type(itv.type)] if itv is not None else []))
             capsig = ''.join(f' {{{o} : Type}}' for o in ops) + capsig
@@ -2944,6 +3087,9 @@ class Fn:
         asg = assigned(stmts)
         for st in stmts:
             for n in ast.walk(st):
+                if isinstance(n, ast.Call) and self.t.externals.get(ast.unparse(n), ('',))[0] == 'fieldset' \
+                        and 'self__' + self.t.externals[ast.unparse(n)][2] not in asg:
+                    asg.append('self__' + self.t.externals[ast.unparse(n)][2])
                 if getattr(self, 'fields', None) is not None and isinstance(n, ast.Call) and isinstance(n.func, ast.Attribute) \
                         and isinstance(n.func.value, ast.Name) and n.func.value.id == 'self':
                     d = self.registry.get((self.t.cls, n.func.attr))
@@ -3022,6 +3168,8 @@ class Fn:
         decos = [ast.unparse(d) for d in self.func.decorator_list]
         first = {(): ['self'], ('property',): ['self'], ('classmethod',): ['cls'], ('staticmethod',): []}.get(tuple(decos)) \
             if t.cls else []
+        if t.fn == '__new__' and decos == []:
+            first = ['cls']       # an implicit static method whose first parameter is the class
         names = [x.arg for x in a.args]
         if first is None or a.vararg or a.kwarg or a.kwonlyargs or a.posonlyargs or names != first + list(t.args or {}):
             self.fail(self.func, f'signature ({", ".join(names)}) / decorators {decos} differ from the declared ones')
@@ -3105,7 +3253,7 @@ class Fn:
                 out.add(tg.attr)
             if isinstance(n, ast.Call) and isinstance(n.func, ast.Attribute) and isinstance(n.func.value, ast.Attribute) \
                     and isinstance(n.func.value.value, ast.Name) and n.func.value.value.id == 'self' and n.func.value.attr in self.t.self_attrs:
-                if n.func.attr != 'append':
+                if n.func.attr != 'append' and self.t.externals.get(ast.unparse(n).replace('self.', 'self__', 1), ('',))[0] != 'fieldset':
                     self.fail(n, f'method .{n.func.attr}(..) of the attribute self.{n.func.value.attr}')
                 out.add(n.func.value.attr)
             if isinstance(n, ast.Call) and isinstance(n.func, ast.Attribute) and isinstance(n.func.value, ast.Name) \
@@ -3228,6 +3376,14 @@ HEADERS['parse'] = ['/- GENERATED by tools/py2lean.py (called from tools/extract
                     '   is a parameter.  `component = stack[-1] if stack else None` is an alias of the top of the stack. -/',
                     'import ICal.Model.PyRT', 'set_option linter.unusedVariables false',
                     'namespace ICal.Gen.BodiesParse', 'open ICal ICal.PyRT', '']
+NAMESPACE['cdmeta'] = 'ICal.Gen.BodiesCDictMeta'
+HEADERS['cdmeta'] = ['/- GENERATED by tools/py2lean.py (called from tools/extract.py) from CaselessDict.__ne__ / __eq__ / sorted_keys /',
+                     '   sorted_items of src/icalendar/caselessdict.py. Do not edit: regenerated on every run;',
+                     '   lean/ICal/Lemmas/BodiesCDictMeta.lean ties each to the hand-written model (ICal/Model/CDict.lean).  The mapping and the',
+                     '   other operand are opaque; `NotImplemented` is `none` of an optional bool.  A method removed from the source makes',
+                     '   the translation fail. -/',
+                     'import ICal.Model.PyRT', 'set_option linter.unusedVariables false',
+                     'namespace ICal.Gen.BodiesCDictMeta', 'open ICal ICal.PyRT', '']
 NAMESPACE['add'] = 'ICal.Gen.BodiesAdd'
 HEADERS['add'] = ['/- GENERATED by tools/py2lean.py (called from tools/extract.py) from Component.add of src/icalendar/cal.py.',
                   '   Do not edit: regenerated on every run; lean/ICal/Lemmas/BodiesAdd.lean proves it equal to the hand-written model',
@@ -3368,7 +3524,7 @@ def translate(src_dir, group='enc'):
         sig = ''.join(f' ({p} : {lean_type(ty)})' for p, ty in fn.used)
         opaque = sorted({e[3] for e in t.externals.values() if isinstance(e[0], str) and e[0] in ('pfun', 'expr') and e[3] not in LEAN_TYPE and e[3] != 'Object' and ':' not in e[3]})
         opaque = sorted(set(opaque) | {o for o in ('AT',) if re.search(r'\b' + o + r'\b', sig)})
-        if group in ('parse', 'alarm', 'recur', 'add'):
+        if group in ('parse', 'alarm', 'recur', 'add', 'cdmeta') or t.lean == 'vMonth_new':
             opaque = opaque_types([lean_type(ty) for _, ty in fn.used] + [fn.rtype_lean or lean_type(fn.rtype)])
         sig = ''.join(f' {{{o} : Type}}' for o in opaque) + ''.join(f' [BEq {o}]' for o in sorted(getattr(fn, 'setelts', ())) if o in opaque) + sig
         rt = fn.rtype_lean or lean_type(fn.rtype)
